@@ -122,6 +122,7 @@ type c14Backend struct {
 	syncs    int
 	lastResp *StorageProfilesResponse
 	full     bool
+	quiet    bool // a quiet move has not been delivered yet
 }
 
 func newC14Backend(rng *rand.Rand) *c14Backend {
@@ -168,6 +169,10 @@ func (b *c14Backend) humanClash(d, p, h string) bool {
 
 // apply performs a ghost mutation; returns false if its guard does not hold.
 func (b *c14Backend) apply(s c14Step) bool {
+	if b.quiet {
+		// a quiet move is the last change before the next delivery (ProfileDB.tla, Mut)
+		return false
+	}
 	switch s.A {
 	case "Attach":
 		if b.profOf(s.D) != "none" || b.humanClash(s.D, s.P, b.dev[s.D].human) {
@@ -190,6 +195,16 @@ func (b *c14Backend) apply(s c14Step) bool {
 		delete(b.profDevs[p], s.D)
 		b.profDevs[s.P][s.D] = true
 		b.touch(p, s.P)
+	case "MoveQuiet":
+		// the backend reports the move with the device's NEW profile only
+		p := b.profOf(s.D)
+		if p == "none" || p == s.P || b.humanClash(s.D, s.P, b.dev[s.D].human) || b.dirty[p] {
+			return false
+		}
+		delete(b.profDevs[p], s.D)
+		b.profDevs[s.P][s.D] = true
+		b.touch(s.P)
+		b.quiet = true
 	case "SetLinked":
 		if b.dev[s.D].linked == s.K {
 			return false
@@ -396,6 +411,7 @@ func (b *c14Backend) Profiles(_ context.Context, req *StorageProfilesRequest) (*
 	b.rng.Shuffle(len(resp.Profiles), func(i, j int) { resp.Profiles[i], resp.Profiles[j] = resp.Profiles[j], resp.Profiles[i] })
 	b.rng.Shuffle(len(resp.Devices), func(i, j int) { resp.Devices[i], resp.Devices[j] = resp.Devices[j], resp.Devices[i] })
 	b.dirty = map[string]bool{}
+	b.quiet = false
 	// what the database is handed is used by it (and by the queries it serves); the settings that were
 	// sent are kept separately, in objects nobody touches
 	b.lastResp = pristine
@@ -646,6 +662,7 @@ func (w *c14World) do(s c14Step, ev *c14Event) bool {
 		for _, p := range c14Profs {
 			w.be.dirty[p] = true
 		}
+		w.be.quiet = false
 	case "LookupDev":
 		if p, _, err := w.db.ProfileByDeviceID(ctx, agd.DeviceID(s.D)); err == nil {
 			c14UseProfile(ctx, p)
@@ -897,8 +914,10 @@ func c14RandomStep(rng *rand.Rand, w *c14World) c14Step {
 		return c14Step{A: "Attach", D: d, P: p}
 	case r < 12:
 		return c14Step{A: "Detach", D: d}
-	case r < 18:
+	case r < 15:
 		return c14Step{A: "Move", D: d, P: p}
+	case r < 18:
+		return c14Step{A: "MoveQuiet", D: d, P: p}
 	case r < 26:
 		return c14Step{A: "SetLinked", D: d, K: lk[rng.Intn(3)]}
 	case r < 29:
